@@ -625,6 +625,7 @@ esl_msafile2_ReadInfoPfam(ESL_MSAFILE2 *afp, FILE *listfp, ESL_ALPHABET *abc, in
    * so when we get here, status (from the line read) should be eslOK.
    */ 
   if (status2 != eslOK) ESL_XFAIL(eslEFORMAT, afp->errbuf, "parse failed (line %d): didn't find // at end of alignment", afp->linenumber);
+  if (nseq    == 0)     ESL_XFAIL(eslEFORMAT, afp->errbuf, "parse failed (line %d): no sequences in alignment", afp->linenumber);
 
   /* if we're returning maxgc and an msa, determine maxgc, which we didn't do above b/c we parsed GC lines with parse_gc()
    * If msa != NULL, we already know maxgc */
